@@ -73,6 +73,15 @@ Theorem C01_csimple_roundtrip : forall x tl, x < 18446744073709551616 ->
 Proof. exact csimple_roundtrip. Qed.
 Print Assumptions C01_csimple_roundtrip.
 
+(* varintChainedSimpleDecode64 IS the plain little-endian continuation-bit
+   reader with the 9-byte cap, on every byte string whose consumed bytes are
+   bytes (so it never returns VARINT_WIDTH_INVALID) *)
+Theorem C01_csimple_decode64_is_decode : forall z,
+  (forall i, N.of_nat i < fst (csimple_decode z) -> byte_at z i < 256) ->
+  csimple_decode64 z = csimple_decode z.
+Proof. exact csimple_decode64_is_decode. Qed.
+Print Assumptions C01_csimple_decode64_is_decode.
+
 Theorem C01_csimple_put_length : forall x, x < 18446744073709551616 ->
   N.of_nat (length (csimple_encode64 x)) = csimple_length x.
 Proof. exact csimple_put_length. Qed.
